@@ -98,7 +98,8 @@ def check_eval(spec):
         return res.skip(f"refskip:{s}")
     _classify(res, e, ref)
     specs_txt = repr(spec["expr"])
-    if ref[0] == "val" and ("unbound_u" in specs_txt or "'cnt'" in specs_txt
+    if ref[0] == "val" and (any(repr(["Var", u]) in specs_txt for u in S.UNBOUND_NAMES)
+                            or "'cnt'" in specs_txt
                             or "['Const', 'int', 0]]" in specs_txt):
         res.label("poison-not-evaluated")
     res.sample = {"expr": repr(e)[:300], "env": {
